@@ -7,6 +7,7 @@
 #include <queue>
 #include <stack>
 #include <stdexcept>
+#include <string>
 #include <vector>
 
 #include "BaseGraph/types.h"
@@ -131,6 +132,8 @@ MultiplePaths findMultiplePathsToVertexFromPredecessors(
 template <template <class...> class Graph, typename EdgeLabel>
 Predecessors findVertexPredecessors(const Graph<EdgeLabel> &graph,
                                       VertexIndex vertex) {
+    graph.assertVertexInRange(vertex);
+
     VertexIndex currentVertex = vertex;
     size_t verticesNumber = graph.getSize();
 
@@ -162,6 +165,9 @@ Predecessors findVertexPredecessors(const Graph<EdgeLabel> &graph,
 template <template <class...> class Graph, typename EdgeLabel>
 Path findGeodesics(const Graph<EdgeLabel> &graph, VertexIndex source,
                    VertexIndex destination) {
+    graph.assertVertexInRange(source);
+    graph.assertVertexInRange(destination);
+
     if (source == destination)
         return {source};
 
@@ -177,6 +183,8 @@ Path findGeodesics(const Graph<EdgeLabel> &graph, VertexIndex source,
 template <template <class...> class Graph, typename EdgeLabel>
 MultiplePredecessors findAllVertexPredecessors(const Graph<EdgeLabel> &graph,
                                                  VertexIndex vertex) {
+    graph.assertVertexInRange(vertex);
+
     VertexIndex currentVertex = vertex;
     size_t verticesNumber = graph.getSize();
 
@@ -219,6 +227,9 @@ MultiplePredecessors findAllVertexPredecessors(const Graph<EdgeLabel> &graph,
 template <template <class...> class Graph, typename EdgeLabel>
 MultiplePaths findAllGeodesics(const Graph<EdgeLabel> &graph,
                                VertexIndex source, VertexIndex destination) {
+    graph.assertVertexInRange(source);
+    graph.assertVertexInRange(destination);
+
     if (source == destination)
         return {{source}};
 
@@ -266,6 +277,12 @@ findAllGeodesicsFromVertex(const Graph<EdgeLabel> &graph, VertexIndex vertex) {
 template <typename Graph>
 std::pair<std::vector<EdgeWeight>, std::vector<VertexIndex>>
 findGeodesicsDijkstra(const Graph &graph, VertexIndex source) {
+    if (source >= graph.getSize())
+        throw std::out_of_range(
+            "Vertex index (" + std::to_string(source) +
+            ") greater than the graph's size(" +
+            std::to_string(graph.getSize()) + ").");
+
     std::vector<EdgeWeight> distances(graph.getSize(), BASEGRAPH_INFINITY);
     distances[source] = 0;
     std::vector<VertexIndex> predecessors(graph.getSize(),
